@@ -551,6 +551,14 @@ template<class P> static void run_termset(P& p, const std::vector<TermSpec>& ts,
             catch (const BoundsHit& h) { thrown = h.what; }
             catch (const std::exception& e) { thrown = e.what(); }
             ctr["parses"]++; ctr[std::string(prop) + ".evals"]++;
+            if (c10 && thrown.empty() && !horizon) {
+                // the same parse without any error stream (utils::no_stream): the term values that reach the functors, positions included, must be the same
+                std::vector<TokObs> with_stream = g_toks; g_toks.clear(); g_made.clear(); g_steps = 0; bool ok2 = false, bad2 = false;
+                try { utils::no_stream ns; auto r2 = p.parse(parse_options{}.set_skip_whitespace(oc.ws).set_skip_newline(oc.nl), buffers::string_view_buffer(std::string_view(in)), ns); ok2 = r2.has_value(); } catch (...) { bad2 = true; }
+                if (bad2 || ok2 != ok || toks_str(g_toks, true) != toks_str(with_stream, true))
+                    add_viol("C10", "positions-depend-on-the-stream", subject + (grammar_kind ? " | stmt grammar | " : " | ") + oc.name, in, "without an error stream the functors saw " + toks_str(g_toks, true) + (ok2 ? "(accepted)" : "(rejected)") + ", with a stream " + toks_str(with_stream, true) + (ok ? "(accepted)" : "(rejected)"));
+                g_toks = with_stream;
+            }
             if (g_accessor_mismatch) { add_viol("C10", "position-accessors-disagree", subject, in, "get_sp() of a term value differs from its get_line() / get_column()"); g_accessor_mismatch = 0; }
             if (!thrown.empty()) { add_viol(prop, "exception", subject, in, thrown); continue; }
             if (grammar_kind == 0) {
